@@ -277,6 +277,8 @@ def subslice(rng, plate, sel, idx, shape):
         a = rng.randrange(0, n)
         b = rng.randrange(a + 1, n + 1)
         st = rng.choice([None, None, 2]) if n > 2 else None
+        if n >= 4 and rng.random() < 0.5:
+            a, b, st = rng.choice([0, 0, 1]), n, rng.choice([2, 2, 3])        # a stepped selection over the whole parent axis
         a_ = None if (a == 0 and rng.random() < 0.5) else a
         b_ = None if (b == n and rng.random() < 0.5) else b
         return slice(a_, b_, st), slice(a_, b_, st)
@@ -466,6 +468,9 @@ class World:
         pp = PP()
         name = name or self.fresh_name('p')
         R_, C_ = shape or (rng.randint(1, self.max_plate[0]), rng.randint(1, self.max_plate[1]))
+        if shape is None and self.max_plate == (4, 6) and rng.random() < 0.12:
+            R_, C_ = rng.randint(5, 8), rng.randint(7, 12)       # now and then a plate of real size (stepped slices of stepped slices need room)
+            M.bucket('plates/large')
         if custom_labels is None:
             custom_labels = rng.random() < 0.25
         rows = [f'r{i}x' for i in range(R_)] if custom_labels else R_
@@ -490,6 +495,41 @@ class World:
     def slice_or_sub(self, plate, sel, idx, shape, p_sub=0.15):
         """`plate[sel]`, or - sometimes - a slice *of that slice*; the wells the harness expects to be addressed are
         registered for the monitors (reference addressing from the original selector cannot describe a sub-slice)."""
+        Rn_, Cn_ = plate.wells.shape
+        if self.rng.random() < 0.25 and max(Rn_, Cn_) >= 5:
+            # a stepped selection of a stepped selection (every second row of every second row ...): numpy semantics, the wells
+            # come from applying both index expressions to a grid of (i, j) pairs
+            import numpy
+            rng = self.rng
+            grid = numpy.empty((Rn_, Cn_), dtype=object)
+            for i_ in range(Rn_):
+                for j_ in range(Cn_):
+                    grid[i_, j_] = (i_, j_)
+            rows_first = Rn_ >= 5 and (Cn_ < 5 or rng.random() < 0.5)
+            s1 = slice(rng.choice([None, 0, 1]), None, rng.choice([2, 2, 3]))
+            s2 = slice(rng.choice([None, 0, 1]), None, rng.choice([2, 3]))
+            other1 = slice(None)
+            lim = (Cn_ if rows_first else Rn_)
+            a_ = rng.randrange(0, lim)
+            other2 = slice(a_, rng.randrange(a_ + 1, lim + 1))
+            psel = (s1, other1) if rows_first else (other1, s1)
+            ssel = (s2, other2) if rows_first else (other2, s2)
+            sub = grid[psel][ssel]
+            exp = [tuple(x) for x in sub.flatten()]
+            if exp:
+                # the parent through the documented (1-based, inclusive) grammar: start k -> k+1
+                def doc(sl_):
+                    return slice(None if sl_.start is None else sl_.start + 1, None, sl_.step)
+                parent = plate[(doc(psel[0]), doc(psel[1]))]
+                try:
+                    sl = annotate(parent[ssel], exp, tuple(sub.shape))
+                    if len(M.addr_override) > 400:
+                        M.addr_override.clear()
+                    M.addr_override[id(sl)] = (exp, tuple(sub.shape), sl)
+                    M.bucket('C07/subslice/stepped_of_stepped')
+                    return sl, exp, tuple(sub.shape), f'{psel!r}[{ssel!r}]'
+                except Exception:   # noqa
+                    pass
         if self.rng.random() < p_sub and len(idx) > 1:
             r = subslice(self.rng, plate, sel, idx, shape)
             if r is not None:
@@ -992,6 +1032,10 @@ class World:
                 pick = rng.choice([rng.choice(subs), rng.sample(subs, min(2, len(subs))), rng.choice(self.subs)])
                 tgt.get_volumes(pick, rng.choice(vol_units + ['mg', 'g', 'umol', 'ng', 'dag', 'U']))
                 tgt.get_volumes()                                     # documented defaults
+                # any iterable of substances, the empty one included ("the enzymes present" where there are none: zero everywhere)
+                some = rng.sample(subs, min(2, len(subs)))
+                tgt.get_volumes(rng.choice([[], (), tuple(some), set(some), iter(some)]), rng.choice(vol_units))
+                tgt.get_moles(rng.choice([[], tuple(some), set(some)]), rng.choice(mol_units))
                 tgt.get_substances()
                 tgt.get_moles(pick, rng.choice(mol_units))
                 if isinstance(tgt, pp.Plate):
